@@ -186,3 +186,24 @@ O("C15.dispatch", "C15", "h_C15.c", "h_C15_dispatch",
 O("C15.rescale.roundtrip", "C15", "h_C15.c", "h_C15_rescale_roundtrip",
   "echs_instant_rescale: Gregorian -> arithmetic Hijri scale -> Gregorian is the identity for every date 1938..2076, scale tag kept",
   ["echs_instant_rescale"], solver=["minisat", "kissat"], timeout={"quick": 900, "thorough": 1800}, native_srcs=["tzob.c", "tzraw.c", "hash.c", "instant.c"])
+
+# ------------------------------------------------------------------ C20
+P("C20", level="other",
+  level_text="Proof obligations (all inputs): the comparator used by both sorts is a strict weak (indeed total) order on all 2^64 bit patterns and agrees with chronological order incl. all-day-first (C08.order), and the binary searches of the sort stay in range and terminate (loop contracts). The sentence of the property itself - sorted, permutation, stable - relates moving array slots to each other, which CBMC contracts without quantifiers cannot carry, so it is reached only by bounded end-to-end runs of the real echs_instant_sort / echs_event_sort on symbolic keys (lengths stated per run), reported as bounded stand-ins.",
+  level_note="Trusted: CBMC semantics. Bounded: array length (6 quick / 10 thorough on the insertion-sort branch; 33..34 thorough on the first merge level with a small key domain). Not covered: the in-place block-merge path (n >= 1024, uses sqrt()).",
+  explanation="comparator axioms and binary-search safety are proved for all inputs; sortedness/permutation/stability only up to the stated array lengths (bounded stand-in)",
+  not_covered=["in-place block merge path of WikiSort (n >= 1024) and sqrt()", "sortedness/permutation/stability beyond the stated lengths"])
+O("C20.lt.axioms", "C20", "h_C20.c", "h_C20_lt_axioms",
+  "echs_instant_lt_p is irreflexive, asymmetric, transitive with transitive incomparability on all 2^64 bit patterns (sentinels and their wrap-around included)",
+  ["echs_instant_lt_p", "echs_instant_le_p"], solver=["minisat", "kissat"])
+for n, tiers in ((3, ["quick", "thorough"]), (5, ["quick", "thorough"]), (8, ["thorough"])):
+    O("C20.sort.instants.n%d" % n, "C20", "h_C20.c", "h_C20_sort_instants",
+      "echs_instant_sort on %d symbolic 64-bit keys: result ordered, a permutation of the input (witness value)" % n,
+      ["echs_instant_sort", "WikiSort", "InsertionSort"], kind="bounded", bound="array length == %d" % n,
+      defines=["-DSORT_N=%d" % n], unwind=n + 2, tiers=tiers,
+      solver=["minisat", "kissat"], timeout={"quick": 600, "thorough": 3600})
+    O("C20.sort.events.n%d" % n, "C20", "h_C20e.c", "h_C20_sort_events",
+      "echs_event_sort on %d events with symbolic starts and an index tag in the oid: ordered, a permutation moved whole, and stable (equal starts keep their input order)" % n,
+      ["echs_event_sort", "WikiSort", "InsertionSort"], kind="bounded", bound="array length == %d" % n,
+      defines=["-DSORT_N=%d" % n], unwind=n + 2, tiers=tiers,
+      solver=["minisat", "kissat"], timeout={"quick": 600, "thorough": 3600}, native_srcs=["instant.c"])
